@@ -209,7 +209,9 @@ class SymInterp(Interp):
             return {"lt": False, "le": False, "gt": True, "ge": True, "eq": False, "ne": True}[name]
         if name in ("eq", "ne"):
             return name == "ne"          # two different symbolic values are generically different
-        return fsym("ind_" + name, a, b)
+        # undecided order comparison: ONE indicator symbol per difference, so that a < b, b > a, not (a >= b) are the same form
+        pos = lambda x: fsym("ind_pos", x, sign="nonneg")
+        return {"lt": lambda: pos(b - a), "gt": lambda: pos(a - b), "le": lambda: 1 - pos(a - b), "ge": lambda: 1 - pos(b - a)}[name]()
 
     def data_cmp(self, name, l, r):
         if isinstance(l, SArr) or isinstance(r, SArr):
@@ -781,6 +783,29 @@ class SymInterp(Interp):
                     raise AnalysisAbort("np.nan_to_num(copy=False)")
                 return S.elementwise(one, a)
             return nan_to_num
+        if name == "heaviside":
+            def heaviside(x1, x2):
+                # 0 where x1 < 0, x2 where x1 == 0, 1 where x1 > 0
+                def one(d, h):
+                    gt = self.cmp_scalar("gt", d, 0)
+                    if gt is True:
+                        return rat(1)
+                    if isinstance(gt, bool):        # not positive: zero or negative
+                        return rat(h) if self.cmp_scalar("eq", d, 0) is True else rat(0)
+                    return gt                       # undecided: generically not exactly zero
+                return S.elementwise(one, x1, x2) if isinstance(x1, SArr) or isinstance(x2, SArr) else one(x1, x2)
+            return heaviside
+        if name == "resize":
+            def resize(a, new_shape):
+                # the flattened data repeated cyclically (NO broadcasting by axes), in C order
+                a = S.asarr(a)
+                shape = tuple(int(self.idx(x)) for x in (new_shape if isinstance(new_shape, (tuple, list)) else (new_shape,)))
+                n = _prod(shape)
+                flat = list(a.data)          # SArr.data is the logical C-order listing
+                if not flat:
+                    return SArr(shape, [rat(0)] * n, dtype=a.dtype)
+                return SArr(shape, [flat[i % len(flat)] for i in range(n)], dtype=a.dtype)
+            return resize
         if name == "isfinite":
             return lambda a: S.elementwise(lambda x: rat(0 if (isinstance(x, Rat) and ({"nan", "inf"} & set(x.symbols()))) else 1), a)
         if name == "reshape":
